@@ -263,10 +263,12 @@ func (fc *funcContext) translateExpr(expr ast.Expr) *expression {
 				fc.pkgCtx.additionalSelections[newSel] = sel
 				return fc.formatExpr("(%1e.$ptr_%2s || (%1e.$ptr_%2s = new %3s(function() { return %4e; }, function($v) { %5s }, %1e)))", x.X, x.Sel.Name, fc.typeName(exprType), newSel, fc.translateAssign(newSel, fc.newIdent("$v", exprType), false))
 			case *ast.IndexExpr:
+				// Taking the address of an element checks the index like reading it does.
+				constantIndex := fc.pkgCtx.Types[x.Index].Value != nil
 				if _, ok := fc.typeOf(x.X).Underlying().(*types.Slice); ok {
-					return fc.formatExpr("$indexPtr(%1e.$array, %1e.$offset + %2f, %3s)", x.X, x.Index, fc.typeName(exprType))
+					return fc.formatExpr(rangeCheck("$indexPtr(%1e.$array, %1e.$offset + %2f, %3s)", constantIndex, false), x.X, x.Index, fc.typeName(exprType))
 				}
-				return fc.formatExpr("$indexPtr(%e, %f, %s)", x.X, x.Index, fc.typeName(exprType))
+				return fc.formatExpr(rangeCheck("$indexPtr(%1e, %2f, %3s)", constantIndex, true), x.X, x.Index, fc.typeName(exprType))
 			case *ast.StarExpr:
 				return fc.translateExpr(x.X)
 			default:
